@@ -32,7 +32,7 @@ RULE = (
     "rejected, u == 0)."
 )
 ASSUMPTIONS = [
-    "alphabet values are exactly representable in float32, so the log ratio is exact; the reported acceptance probability is compared with float64 exp() with tolerance 5e-6 (lp-carrying states) resp. 5e-5 (Liesel model, kernels); exact 0 / exact 1 / error codes / decisions / states are compared exactly",
+    "alphabet values are exactly representable in float32, so the log ratio is exact; the reported acceptance probability is compared with float64 exp() with tolerance 5e-6 (lp-carrying states) resp. 5e-5 (Liesel model, kernels, IWLS double well: observed float32 noise 1.2e-6); exact 0 / exact 1 / error codes / decisions / states are compared exactly",
     "the accept/reject decision is judged against the REPORTED acceptance probability (after that was checked against the reference), so float32 underflow of exp() to 0 is treated as probability zero: never accepted",
     "u == alpha exactly in (0,1): either outcome allowed (does not occur on these alphabets except by design at alpha in {0,1})",
     "scripted uniform draws replace jax.random.uniform (seam consumption asserted: exactly one uniform per mh_step); under jit/vmap the scripted value is a traced argument",
@@ -63,6 +63,8 @@ def bounds(tier):
         "liesel_lattice": {"x_current": LIESEL_CUR, "x_proposed": [str(v) for v in LIESEL_PROP], "correction": CORR, "u": U},
         "rw_lattice": {"x": RW_X, "z": RW_Z if q else RW_Z_T, "step": RW_S, "u": U},
         "iwls_lattice": {"x": IWLS_X, "z": IWLS_Z if q else IWLS_Z_T, "step": IWLS_S, "u": U},
+        "iwls_double_well_lattice": {"x": DW_X, "z": DW_Z if q else DW_Z_T, "step": DW_S, "u": U, "target": "-(x^2-1)^2"},
+        "key_discipline": "eager kernel units: the uniform draw deciding acceptance must not share its PRNG key with another draw of the same transition",
     }
 
 
@@ -76,6 +78,11 @@ IWLS_X = [0.5, 1.0, 2.0]
 IWLS_Z = [-3.0, -1.25, 0.75, 1.5, 4.0]
 IWLS_Z_T = [-5.0, -3.0, -2.0, -1.25, -0.625, 0.75, 1.5, 2.0, 4.0, 6.0]
 IWLS_S = [1.0, 0.5]
+DW_X = [1.0, 0.85, -1.25, 0.25]
+DW_Z = [-3.0, -2.0, -1.0, -0.5, 0.5, 1.0, 2.0]
+DW_Z_T = [-4.0, -3.0, -2.75, -2.0, -1.5, -1.0, -0.5, -0.25, 0.25, 0.5, 1.0, 1.5, 2.0, 3.0]
+DW_S = [1.0, 0.5]
+TOL_DW = 5e-5
 
 
 def units(tier, seed):
@@ -109,6 +116,11 @@ def units(tier, seed):
         us.append({"kind": "rw", "epoch": ep, "tier": tier})
     us.append({"kind": "iwls", "epoch": "POSTERIOR", "tier": tier})
     us.append({"kind": "iwls", "epoch": "FAST_ADAPTATION", "tier": tier})
+    # IWLS on a smooth double well: proposals landing where the information matrix is
+    # indefinite have an undefined ratio (code 90, alpha 0, rejected)
+    for ep in ("POSTERIOR", "FAST_ADAPTATION"):
+        for st in DW_S:
+            us.append({"kind": "iwls-dw", "epoch": ep, "step": st, "tier": tier})
     return us
 
 
@@ -562,6 +574,17 @@ def _script(z, u, counts):
     return script
 
 
+def _key_discipline(V, check, mode, sp, case):
+    """Premise of the rule 'accepted iff u < alpha' with u ~ U(0,1) independent of the
+    proposal: the uniform draw must not reuse the key of another draw of the transition."""
+    keys = [k for k in sp.keys]
+    if any(k is None for k in keys):
+        raise RuntimeError("seam could not record a concrete PRNG key in eager mode")
+    if sp.duplicate_keys():
+        fns = [e["fn"] for e in sp.log]
+        V(check, f"{mode}:accept-draw-shares-key", case, f"draws {fns} of one transition used the same PRNG key: the uniform draw deciding acceptance is a function of the proposal draw ({case})")
+
+
 def run_rw(unit, res):
     import jax
     import jax.numpy as jnp
@@ -588,10 +611,11 @@ def run_rw(unit, res):
         counts = {}
         case = {"epoch": unit["epoch"], "x": x0, "z": z, "step": s, "u": u, "x_proposed": xp}
         with jax.disable_jit():
-            with ScriptedPRNG(_script(np.float32(z), np.float32(u), counts)):
+            with ScriptedPRNG(_script(np.float32(z), np.float32(u), counts)) as sp:
                 out = kernel.transition(key, ks, state, epoch)
         if counts != {"normal": 1, "uniform": 1}:
             raise RuntimeError(f"RWKernel drew {counts}")
+        _key_discipline(V, "RWKernel", mode, sp, case)
         lps = (ref.boundary_lp(float(np.float32(x0))), ref.boundary_lp(xp), 0.0)
         judge(V, res, "RWKernel", mode, case, float(np.float32(u)), lps, _info_tuple(out.info), out.model_state, state, up, TOL_MODEL)
     res.note([unit, sorted(res.outcomes)])
@@ -627,10 +651,11 @@ def run_iwls(unit, res):
         counts = {}
         case = {"epoch": unit["epoch"], "x": x0, "z": z, "step": s, "u": u, "x_proposed_closed_form": xp}
         with jax.disable_jit():
-            with ScriptedPRNG(_script(np.float32(z), np.float32(u), counts)):
+            with ScriptedPRNG(_script(np.float32(z), np.float32(u), counts)) as sp:
                 out = kernel.transition(key, ks, state, epoch)
         if counts != {"normal": 1, "uniform": 1}:
             raise RuntimeError(f"IWLSKernel drew {counts}")
+        _key_discipline(V, "IWLSKernel", mode, sp, case)
         up = model.update_state({"x": _f32(xp)}, state)
         got = out.model_state
         if bool(out.info.position_moved) and abs(float(got["x"]) - xp) < 1e-4:
@@ -638,6 +663,63 @@ def run_iwls(unit, res):
         judge(V, res, "IWLSKernel", mode, case, float(np.float32(u)), None, _info_tuple(out.info), got, state, up, TOL_MODEL, exact=False, must_reject=outside)
     res.note([unit, sorted(res.outcomes)])
     res.sample({"kind": "iwls", "epoch": unit["epoch"], "cases": res.states})
+
+
+def run_iwls_dw(unit, res):
+    import jax
+    import jax.numpy as jnp
+    import numpy as np
+    import liesel.goose as gs
+    from liesel.goose.epoch import EpochConfig, EpochType
+    from mc.seams import ScriptedPRNG
+
+    V = Violations(res)
+    model = gs.DictInterface(lambda st: -((st["x"] ** 2 - 1.0) ** 2))
+    kernel = gs.IWLSKernel(["x"])
+    kernel.set_model(model)
+    epoch = EpochConfig(EpochType[unit["epoch"]], 10, 1, None).to_state(1, 1)
+    key = jax.random.PRNGKey(4)
+    zs = DW_Z if unit["tier"] == "quick" else DW_Z_T
+    s = unit["step"]
+    mode = "eager-scripted:" + unit["epoch"]
+    n_undef = 0
+    for x0, z, u in itertools.product(DW_X, zs, U):
+        res.states += 1
+        state = {"x": _f32(x0), "n": jnp.array([1, 2], dtype=jnp.int32)}
+        xp = ref.dw_proposal(x0, s, z)
+        f_prop = ref.dw_info(xp)
+        if not math.isnan(xp) and abs(f_prop) < 0.5:
+            raise RuntimeError(f"harness: double-well lattice point x'={xp} too close to the edge of the indefinite region")
+        corr = ref.dw_correction(x0, xp, s)
+        lps = (ref.dw_lp(x0), ref.dw_lp(xp), corr)
+        where = "current-indefinite" if math.isnan(xp) else "proposal-indefinite" if f_prop <= 0.0 else "both-definite"
+        if math.isnan(corr) != (where != "both-definite"):
+            raise RuntimeError("harness: reference correction inconsistent with the information matrices")
+        n_undef += where != "both-definite"
+        ks = kernel.init_state(key, state)
+        ks.step_size = _f32(s)
+        counts = {}
+        case = {"target": "double-well", "epoch": unit["epoch"], "x": x0, "z": z, "step": s, "u": u, "x_proposed_closed_form": xp, "information_at_proposal": f_prop, "region": where}
+        with jax.disable_jit():
+            with ScriptedPRNG(_script(np.float32(z), np.float32(u), counts)) as sp:
+                out = kernel.transition(key, ks, state, epoch)
+        if counts != {"normal": 1, "uniform": 1}:
+            raise RuntimeError(f"IWLSKernel drew {counts}")
+        _key_discipline(V, "IWLSKernel-dw", mode, sp, case)
+        got = out.model_state
+        gx = float(got["x"])
+        if math.isnan(xp):
+            up = model.update_state({"x": _f32(math.nan)}, state)
+        elif bool(out.info.position_moved) and abs(gx - xp) < 1e-4:
+            up = model.update_state({"x": got["x"]}, state)  # float32 rounding of the proposal
+        else:
+            up = model.update_state({"x": _f32(xp)}, state)
+        judge(V, res, "IWLSKernel-dw", mode + ":" + where, case, float(np.float32(u)), lps, _info_tuple(out.info), got, state, up, TOL_DW)
+    if n_undef == 0:
+        raise RuntimeError("harness: no proposal of the double-well lattice lands in the indefinite region")
+    res.extra["iwls_dw_undefined_ratio_cases"] = n_undef
+    res.note([unit, sorted(res.outcomes)])
+    res.sample({"kind": "iwls-dw", "epoch": unit["epoch"], "step": s, "cases": res.states, "undefined_ratio_cases": n_undef})
 
 
 # ---------------------------------------------------------------------------------
@@ -654,6 +736,7 @@ def run_unit(unit):
         "liesel": run_liesel,
         "rw": run_rw,
         "iwls": run_iwls,
+        "iwls-dw": run_iwls_dw,
     }.get(kind)
     if run is None:
         raise RuntimeError(f"unknown unit kind {kind}")
